@@ -29,7 +29,7 @@ ID = 'C10'
 LEVEL = 'fault_enumeration'
 ROLES = ['forward', 'forward-pp-pooled', 'tunnel-pp', 'forward-pooled', 'tunnel-pooled', 'tunnel', 'web', 'static', 'reverse', 'reverse-keepalive', 'nonutf8-target', 'close-hook-raises', 'bad-request', 'not-found', 'auth-failed', 'tls-handshake-fails']
 MODES = ['local', 'remote', 'threaded']
-RULE = ('enumeration: for each (role, mode) a fault-free dry run counts the proxy socket calls and the peer actions of the '
+RULE = ('enumeration: for each (role, mode) - roles incl. forward/tunnel behind --enable-proxy-protocol opening with the address-less PROXY UNKNOWN line - a fault-free dry run counts the proxy socket calls and the peer actions of the '
         'connection; every (call ordinal x errno), (selector register/modify ordinal x {ENOMEM, ENOSPC}), (action index x peer fault), '
         'connect fault and the idle-timeout ending is run; '
         'plus repetition runs (25 / 200 consecutive connections with mixed endings on one executor) and Hypothesis-drawn '
